@@ -64,6 +64,7 @@ BaseStats == [mu |-> SetOf(BaseUtxo), cnt |-> Cardinality(DOMAIN BaseUtxo), amt 
 \* the base chain (genesis .. block 0) is indexed as one step; its entry is the model's block 0
 Ix0 == [run |-> FALSE, synced |-> FALSE, best |-> None, commit |-> None, err |-> "none",
         dirty |-> FALSE,                              \* the database was modified since the last commit of the locator
+        ferr |-> FALSE,                               \* the block filter index refused to start (the other indexes are independent of it)
         unclean |-> FALSE,                            \* ghost: the index was once re-created over a database that was ahead of its locator
         txi |-> {}, spd |-> {},
         ent |-> [b \in Ids |-> NoEntry],              \* what CustomAppend wrote for block b (last write wins)
@@ -174,9 +175,9 @@ IStart ==
   /\ LET c == ix.commit
          okc == c = None \/ (Found(ix, blk, c) /\ ix.ent[c].mu = ix.cmu)       \* coinstatsindex: LookUpOne (height key, else by-hash table) and DB_MUHASH
          okf == c = None \/ ix.hkey[HeightB(blk, c)] = c                        \* blockfilterindex: ReadFilterHeader reads the height key only
-         e == IF ~okc THEN "coinstats-init-entry-mismatch" ELSE IF ~okf THEN "filter-init-height-key-taken" ELSE "none"
+         e == IF ~okc THEN "coinstats-init-entry-mismatch" ELSE "none"
      IN ix' = IF e # "none" THEN [ix EXCEPT !.run = TRUE, !.err = e, !.unclean = (@ \/ ix.dirty)]
-              ELSE [ix EXCEPT !.run = TRUE, !.best = c, !.synced = (c = tip), !.cur = c, !.unclean = (@ \/ ix.dirty),
+              ELSE [ix EXCEPT !.run = TRUE, !.best = c, !.synced = (c = tip), !.cur = c, !.unclean = (@ \/ ix.dirty), !.ferr = ~okf,
                               !.mu = (IF c = None THEN {} ELSE ix.cmu), !.cnt = (IF c = None THEN 0 ELSE ix.ent[c].cnt),
                               !.amt = (IF c = None THEN VZ ELSE ix.ent[c].amt), !.lasthdr = c]
   /\ nrst' = nrst + 1 /\ UNCHANGED <<chainvars, flushed>>
@@ -186,7 +187,7 @@ ISync ==
   /\ UNCHANGED <<chainvars, flushed, nrst>>
 IStop ==
   /\ ix.run
-  /\ ix' = [ix EXCEPT !.run = FALSE, !.synced = FALSE, !.best = None, !.cur = None, !.mu = {}, !.cnt = 0, !.amt = VZ, !.lasthdr = None]
+  /\ ix' = [ix EXCEPT !.run = FALSE, !.synced = FALSE, !.ferr = FALSE, !.best = None, !.cur = None, !.mu = {}, !.cnt = 0, !.amt = VZ, !.lasthdr = None]
   /\ UNCHANGED <<chainvars, flushed, nrst>>
 
 NextI == \/ \E p \in Ids, txs \in Lists, cb \in CbModes, dt \in Dts : IMine(p, txs, cb, dt)
@@ -200,10 +201,11 @@ NextI == \/ \E p \in Ids, txs \in Lists, cb \in CbModes, dt \in Dts : IMine(p, t
 \* blocks of the active chain the index must answer for: ancestors of its best block on the active chain
 Covered == IF ix.run /\ ix.best # None THEN AncB(blk, tip) \cap AncB(blk, ix.best) ELSE {}
 NoIndexError == ix.err = "none"
-\* ... required of every history without a re-creation over a database that was ahead of its locator; with one, the only error
+\* ... required of every history without a re-creation over a database that was ahead of its locator; with one, the only failure
 \* the model can reach is the block filter index refusing to start (its Init reads the height key, which a later branch has taken)
-NoIndexErrorClean == ~ix.unclean => ix.err = "none"
-OnlyKnownError == ix.err \in {"none", "filter-init-height-key-taken"}
+NoIndexErrorClean == ~ix.unclean => (ix.err = "none" /\ ~ix.ferr)
+OnlyKnownError == ix.err = "none"
+NoFilterInitFailure == ~ix.ferr
 \* once synced (and the notification queue is drained, which every step of the model includes) the whole active chain is covered
 SyncedCoversChain == (ix.run /\ ix.synced) => AncB(blk, tip) \subseteq Covered
 TxIndexAgrees == \A b \in Covered \ {0} : \A t \in TxsOf(blk, b) : <<t, b>> \in ix.txi
@@ -216,7 +218,7 @@ SpenderNoStale == \A b \in Covered \ {0} : \A y \in FSpends(blk, b) : \A z \in i
 SpenderAgreesClean == ~ix.unclean => (SpenderAgrees /\ SpenderNoStale)
 EntriesFound == \A b \in Covered : Found(ix, blk, b) /\ ix.ent[b].ok
 CoinStatsAgree == \A b \in Covered \ {0} : LET f == FStats(blk, b) e == ix.ent[b] IN e.mu = f.mu /\ e.cnt = f.cnt /\ e.amt = f.amt
-FiltersAgree == \A b \in Covered \ {0} : ix.ent[b].elems = FElems(blk, b) /\ ix.ent[b].prevhdr = blk[b].parent
+FiltersAgree == ~ix.ferr => \A b \in Covered \ {0} : ix.ent[b].elems = FElems(blk, b) /\ ix.ent[b].prevhdr = blk[b].parent
 RunningStateAgrees == (ix.run /\ ix.best # None /\ ix.best # 0 /\ ix.best \in AncB(blk, tip)) => ix.mu = FStats(blk, ix.best).mu
 CommitBehindFlush == ix.commit = None \/ flushed # None
 
@@ -226,12 +228,12 @@ ChainRows == LET path == OrdB(blk, AncB(blk, tip) \ {0}) IN
      [b |-> b, txs |-> blk[b].txs, utxo |-> UtxoList(ReplayB(blk, b)), cnt |-> f.cnt, k |-> f.amt.k, s |-> f.amt.s,
       elems |-> FElems(blk, b), spends |-> {[t |-> y.o[1], i |-> y.o[2], by |-> y.t] : y \in FSpends(blk, b)},
       covered |-> b \in Covered, clean |-> ~ix.unclean]]
-IxObs == [run |-> ix.run, synced |-> ix.synced, best |-> ix.best, commit |-> ix.commit, err |-> ix.err, basecovered |-> 0 \in Covered,
+IxObs == [ferr |-> ix.ferr, run |-> ix.run, synced |-> ix.synced, best |-> ix.best, commit |-> ix.commit, err |-> ix.err, basecovered |-> 0 \in Covered,
           basecnt |-> BaseStats.cnt, bases |-> BaseStats.amt.s]
 ProjI == [world |-> World, obs |-> Obs, ix |-> IxObs, rows |-> ChainRows]
 \* cheap state key (the database content of the index is a function of the history; the scalars below tell successors apart)
 KeyI == [n |-> n, blk |-> blk, tip |-> tip, stored |-> stored, failed |-> failed, ninv |-> ninv, flushed |-> flushed, nrst |-> nrst,
-         run |-> ix.run, synced |-> ix.synced, best |-> ix.best, commit |-> ix.commit, dirty |-> ix.dirty, unclean |-> ix.unclean, err |-> ix.err]
+         run |-> ix.run, synced |-> ix.synced, best |-> ix.best, commit |-> ix.commit, dirty |-> ix.dirty, unclean |-> ix.unclean, err |-> ix.err, ferr |-> ix.ferr]
 \* Edges carry only the cheap keys; the expected lookups of a state are printed once per visited state by the invariant EmitRows
 \* (TLC does not cache LET definitions while evaluating primed expressions: ChainRows' costs seconds, ChainRows milliseconds).
 EmitI == VFEdgeK(KeyI, KeyI, lastAct', lastRes', KeyI', KeyI')
